@@ -4,6 +4,7 @@ import (
 	"crypto/rand"
 	"errors"
 	"io"
+	"runtime"
 	"sync"
 	"time"
 
@@ -17,6 +18,7 @@ func init() {
 	vpHarnesses["vpC16_O3"] = vpC16_O3
 	vpHarnesses["vpC16_O4"] = vpC16_O4
 	vpHarnesses["vpC16_O5"] = vpC16_O5
+	vpHarnesses["vpC16_O6"] = vpC16_O6
 }
 
 func vpToyParams(ln uint) *SystemParameters {
@@ -128,7 +130,35 @@ func vpC16_O5() {
 	vpC16WorkerPool()
 }
 
+// C16-O6: the same worker pool on a single processor (GOMAXPROCS = 1): generation still
+// makes progress and stops cleanly - no deadlock.
+func vpC16_O6() {
+	if vpNative() {
+		old := runtime.GOMAXPROCS(1)
+		defer runtime.GOMAXPROCS(old)
+	}
+	vpC16WorkerPool()
+}
+
 func vpC16WorkerPool() {
+	if vpNative() {
+		// natively a pool that makes no progress would block the replay for good: watchdog
+		done := make(chan struct{})
+		go func() {
+			defer close(done)
+			vpC16WorkerPoolBody()
+		}()
+		select {
+		case <-done:
+		case <-time.After(20 * time.Second):
+			panic("DEADLOCK: the worker pool made no progress within 20 s")
+		}
+		return
+	}
+	vpC16WorkerPoolBody()
+}
+
+func vpC16WorkerPoolBody() {
 	base := vpGoroutines()
 	stop := make(chan struct{})
 	ints, errs := safeprime.GenerateConcurrent(32, stop)
